@@ -2,7 +2,10 @@
 # Runs the thorough tier of every check, one after the other (each uses all cores).
 # Meant for `vp run` in the background: results are exploration, not evidence.
 cd "$(dirname "$0")/.."
-make -s -j16 VARIANT=fast && make -s -j16 VARIANT=asan && make -s -j16 VARIANT=tsan || exit 2
+# with `vp run --with-repo` the repository snapshot is used, so later edits of /repo do not disturb the campaign
+[ -n "${VP_RUN_REPO:-}" ] && export VERIF_REPO="$VP_RUN_REPO"
+R=${VERIF_REPO:-/repo}
+make -s -j16 VARIANT=fast REPO=$R && make -s -j16 VARIANT=asan REPO=$R && make -s -j16 VARIANT=tsan REPO=$R || exit 2
 for id in ${CAMPAIGN_IDS:-C02 C05 C12 C13 C01 C08 C03 C14 C07 C09 C10 C11 C04 C06 C15 C17 C19 C20}; do
   echo "=== $id $(date +%T)"
   VERIF_EVIDENCE_DIR=$PWD/evidence-long VERIF_BUDGET_S=${CAMPAIGN_BUDGET_S:-600} VERIF_SEED=${CAMPAIGN_SEED:-20260923} bin/verify $id thorough
